@@ -49,3 +49,53 @@ pub broadcast proof fn axiom_string_obeys_hash_table_key_model()
     ensures #[trigger] vstd::std_specs::hash::obeys_key_model::<String>()
 { admit(); }
 //@broadcast axiom_string_obeys_hash_table_key_model
+
+/// `Default::default()` of a type, as a spec value (only the instances below are given meaning)
+pub uninterp spec fn vx_default<T>() -> T;
+pub broadcast proof fn axiom_default_u32()
+    ensures #[trigger] vx_default::<u32>() == 0u32
+{ admit(); }
+//@broadcast axiom_default_u32
+pub assume_specification<T: Default, E> [Result::<T, E>::unwrap_or_default] (r: Result<T, E>) -> (v: T)
+    ensures
+        r is Ok ==> v == r->Ok_0,
+        r is Err ==> v == vx_default::<T>(),
+;
+
+pub assume_specification<T: Clone> [<[T]>::to_vec] (s: &[T]) -> (r: Vec<T>)
+    ensures r@.len() == s@.len(),
+;
+pub assume_specification<T> [Option::<T>::as_deref] (o: &Option<T>) -> (r: Option<&<T as core::ops::Deref>::Target>) where T: core::ops::Deref
+    ensures o is Some <==> r is Some,
+;
+
+/// a String is determined by its characters
+pub broadcast proof fn axiom_string_ext(a: String, b: String)
+    ensures (#[trigger] a@ == #[trigger] b@) ==> a == b
+{ admit(); }
+//@broadcast axiom_string_ext
+
+/// Spec-level value of `Default::default()` (what derive(Default) and std's Default impls produce)
+pub trait VxDefault: Sized {
+    spec fn vx_default() -> Self;
+}
+impl VxDefault for bool { open spec fn vx_default() -> Self { false } }
+impl VxDefault for u8 { open spec fn vx_default() -> Self { 0 } }
+impl VxDefault for u32 { open spec fn vx_default() -> Self { 0 } }
+impl VxDefault for u64 { open spec fn vx_default() -> Self { 0 } }
+impl VxDefault for i64 { open spec fn vx_default() -> Self { 0 } }
+impl<T> VxDefault for Option<T> { open spec fn vx_default() -> Self { None } }
+pub uninterp spec fn vx_empty_string() -> String;
+pub broadcast proof fn axiom_empty_string()
+    ensures (#[trigger] vx_empty_string())@ == Seq::<char>::empty()
+{ admit(); }
+//@broadcast axiom_empty_string
+impl VxDefault for String { open spec fn vx_default() -> Self { vx_empty_string() } }
+pub uninterp spec fn vx_empty_vec<T>() -> Vec<T>;
+pub broadcast proof fn axiom_empty_vec<T>()
+    ensures (#[trigger] vx_empty_vec::<T>())@ == Seq::<T>::empty()
+{ admit(); }
+//@broadcast axiom_empty_vec
+impl<T> VxDefault for Vec<T> { open spec fn vx_default() -> Self { vx_empty_vec::<T>() } }
+pub uninterp spec fn vx_empty_hashmap<K, V>() -> HashMap<K, V>;
+impl<K, V> VxDefault for HashMap<K, V> { open spec fn vx_default() -> Self { vx_empty_hashmap::<K, V>() } }
